@@ -26,7 +26,8 @@ def render_subjects(source_subjects: List[Any]) -> str:
 def render_options(model: Index) -> str:
     options = []
     if model.name:
-        options.append(f"name: '{prepare_text_for_dbml(model.name)}'")
+        quote = "'''" if '\n' in model.name else "'"
+        options.append(f"name: {quote}{prepare_text_for_dbml(model.name)}{quote}")
     if model.pk:
         options.append('pk')
     if model.unique:
